@@ -22,6 +22,7 @@ RULE = (
     "(repeated kinds included): chan_mask == union of everything applied so far and grows monotonically; (b) clean_rfi for every gulp 1..N+1, depths {8,32,4,2,1}, default and explicit mask values: masked channels constant "
     "at the mask value in every sample, all other samples bit-identical; (c) to_file/from_file. Non-trivial = a mask with >= 1 and < all channels"
 )
+SCALE_LANE = 'bands of 64, 130 and 832 channels (thorough up to 4096): smooth bandpass with outlier blocks at 6 positions x 4 widths x 3 amplitudes x 2 methods x 3 thresholds'
 ASSUMPTIONS = [
     "cases where some |z| is within 1e-4 (relative) of the threshold are skipped and counted (float32 z-scores in the library)",
     "channel centres are the library's float32 labels (Header.chan_freqs)",
